@@ -309,7 +309,9 @@ G2After ==
             /\ UNCHANGED <<udpGot, devSpin>>
        ELSE /\ udpGot' = IF doFlush THEN udpGot \o g2.pending ELSE udpGot
             /\ IF g2.ended /\ ~DevSpin
-                 THEN /\ g2' = [g2 EXCEPT !.pending = IF doFlush THEN <<>> ELSE @, !.buf = rest, !.processed = 0, !.pc = "lastflush"]
+                 THEN /\ g2' = [g2 EXCEPT !.pending = IF doFlush THEN <<>> ELSE @, !.buf = rest, !.processed = 0, !.pc = "lastflush",
+                                           \* a left-over partial record is reported as io.ErrUnexpectedEOF
+                                           !.rerr = IF Len(rest) > 0 /\ @ = "none" THEN "trunc" ELSE @]
                       /\ UNCHANGED devSpin
                  ELSE /\ g2' = [g2 EXCEPT !.pending = IF doFlush THEN <<>> ELSE @, !.buf = rest, !.processed = 0, !.pc = "read"]
                       /\ devSpin' = (devSpin \/ (g2.ended /\ Len(rest) > 0))
